@@ -38,7 +38,8 @@ def check(repo, tier):
     run.rule('D2', 'ARR: every environment / micro-matrix contraction is well-typed (basis index of mode i with the mode-i index of the solution, bonds of the same tensor train, snapshot index '
              'shared not summed); no environment is read unset or stale; economic QR/RQ never raise a rank; reshapes respect the index structure; result satisfies the class invariant')
     run.rule('D3', 'frame: data and the initial guess (single or list) are not modified; one result per output row')
-    run.rule('D4', 'mandy_kb: the kernel coefficients solve gram z^T = y^T (both the Cholesky-type solve and the least-squares fallback) with the Gram matrix of x with itself')
+    run.rule('D4', 'mandy_kb: the kernel coefficients solve gram z^T = y^T (both the Cholesky-type solve and the least-squares fallback) with the Gram matrix of x with itself; '
+             'the solver that needs a regular matrix is reached only through a test that looks at the Gram matrix (or inside a try block)')
     run.trusted = ['NumPy/SciPy transfer functions']
     run.bounds = 'MANDy: 2-3 coordinates, 2-3 functions; ARR: orders 2-3, repeats 1-2, single guess and list of two distinct guesses, two output rows'
 
@@ -191,6 +192,23 @@ def check(repo, tier):
             ranc = A.ancestors([e['rhs']])
             if not any(a.tags.get('role') == 'y' for a in ranc.values()):
                 bad.append('the right-hand side is not y^T')
+            # a solver that needs a regular matrix (solve / Cholesky) may only be reached through a test that looks at the Gram matrix (its condition number,
+            # rank, smallest eigenvalue ...) or inside a try block: the Gram matrix of few snapshots can be singular whatever the shapes are
+            if e['kind'] == 'solve':
+                gid = id(e['matrix'])
+                guards = [g for g in sc.events('branch') if not g.get('decided')]
+                looks = False
+                for g in guards:
+                    ops = [o for o in ((g.get('expr') or (None, ()))[1] or ()) if isinstance(o, Arr)] + ([g['value']] if isinstance(g.get('value'), Arr) else [])
+                    if any(gid in A.ancestors([o]) or o is e['matrix'] for o in ops):
+                        looks = True
+                fnode = repo.fn(entry).node
+                import ast as _ast
+                ln = getattr(e.get('node'), 'lineno', None)
+                in_try = any(isinstance(t, _ast.Try) and any(getattr(n_, 'lineno', None) == ln for b_ in t.body for n_ in _ast.walk(b_)) for t in _ast.walk(fnode)) if ln else False
+                if not looks and not in_try:
+                    bad.append('a solver that requires a regular matrix is applied to the Gram matrix on a path where no test looks at the matrix '
+                               '(only shapes / constants decide): a singular Gram matrix of few, linearly dependent snapshots reaches it')
         run.oblige('D4', (entry, scen, tuple(ch)), not bad)
         if bad:
             run.add(F(entry, 'D4', 'kernel-based MANDy', f'{scen} [branch {ch}]: ' + '; '.join(bad[:3])))
